@@ -191,7 +191,7 @@ class Ref:
             ps["frames"][-1][1] = i + 1
             tag = list(path) + [i]
             op = st[0]
-            if op == "delay" or op == "delayfx":
+            if op == "delay" or op == "delayfx" or op == "delaye":
                 if op == "delayfx":
                     for em in st[2]:
                         out.append(self.mk(em, ps["fuel"] - 1))
